@@ -400,7 +400,8 @@ def _parse_iso8601_duration(text: str, **options: str) -> Duration | None:
             if "." in _seconds:
                 _seconds, _microseconds = _seconds.split(".")
                 seconds += int(_seconds)
-                microseconds += int(f"{_microseconds[:6]:0<6}")
+                scale = 10 ** len(_microseconds)
+                microseconds += (int(_microseconds) * 1000000 + scale // 2) // scale
             else:
                 seconds += int(_seconds)
 
